@@ -10,7 +10,7 @@ from bip_utils.ecc.secp256k1.secp256k1_point_ecdsa import Secp256k1PointEcdsa
 from bip_utils.ecc.secp256k1.secp256k1_keys_coincurve import Secp256k1PublicKeyCoincurve, Secp256k1PrivateKeyCoincurve
 from bip_utils.ecc.secp256k1.secp256k1_keys_ecdsa import Secp256k1PublicKeyEcdsa, Secp256k1PrivateKeyEcdsa
 
-LEAN_MODULES = ["BipVerif.Props.C12"]
+LEAN_MODULES = ["BipVerif.Props.C12", "BipVerif.Props.C12Group"]
 POINT = {"secp256k1": Secp256k1PointCoincurve, "nist256p1": Nist256p1Point, "ed25519": Ed25519Point, "ed25519blake2b": Ed25519Blake2bPoint,
          "ed25519kholaw": Ed25519KholawPoint, "ed25519monero": Ed25519MoneroPoint}
 GEN = {"secp256k1": Secp256k1, "nist256p1": Nist256p1, "ed25519": Ed25519, "ed25519blake2b": Ed25519Blake2b, "ed25519kholaw": Ed25519Kholaw,
